@@ -55,6 +55,10 @@ inductive Path where
   | final (s : Stream) | finalLin (s : Stream) | tpm (s : Stream)
   | finalGz (s : Stream)   -- the final file of a stream written through `gzip.open` (`<name>.gz`; default, off with `--no_gzip`)
   | refFa                  -- `<output>/<reference name without .gz>`: the unpacked copy of a plain-gzip (not bgzip) reference
+  | refFai                 -- the FASTA index `<reference the run reads>.fai` inside the output folder: the file *exists*
+  | refFaiData             -- … and its content (no file of its own: `refFai` is to `refFaiData` what a lock is to the data it
+                           -- vouches for — an index that exists is read without any check of its completeness)
+  | refFaiTmp              -- `<index>.<uuid4 hex>.tmp`: the name under which load_indexed_reference lets pyfaidx build the index
   deriving DecidableEq, Repr
 
 inductive Tok where
@@ -152,12 +156,13 @@ structure Variant where
   resetCounter : Bool        -- the alignment counter is reset at the start of every experiment, on every path
   refRewrite : Bool          -- a plain-gzip reference is unpacked by *every* run, also by a resumed one (off: a resumed run
                              -- trusts whatever file carries the name of the unpacked copy)
+  faiAtomic : Bool           -- the FASTA index is built under a temporary name and renamed (off: pyfaidx writes it in place)
   deriving DecidableEq, Repr
 
 /-- the repaired code (the current /repo) -/
-def fixed : Variant := ⟨true, true, true, true, true, true, true, true, true⟩
+def fixed : Variant := ⟨true, true, true, true, true, true, true, true, true, true⟩
 /-- the code as pinned -/
-def pinned : Variant := ⟨false, false, false, false, false, true, true, true, false⟩
+def pinned : Variant := ⟨false, false, false, false, false, true, true, true, false, false⟩
 
 inductive RG where
   | none      -- no --read_group
@@ -183,6 +188,9 @@ structure Cfg where
   gzip : Bool := false        -- large final outputs go through `gzip.open` (the default; false = `--no_gzip`)
   highMemory : Bool := false  -- `--high_memory`: collect_reads keeps the assignments of every chromosome in memory and
                               -- does not read the save files back (no prepare_multimapper_dict)
+  idx : Bool := false         -- the index of the reference the run reads lies in the output folder and is written by the run:
+                              -- the private index of the unpacked copy of a plain-gzip reference (since eab0ef3), or the
+                              -- index of a reference that was put into the folder without one
   gzRef : Bool := false       -- the reference is gzip- but not bgzip-compressed: DatasetProcessor.__init__ unpacks it into
                               -- the output folder (`Path.refFa`) and works with the copy
   deriving Repr
@@ -268,17 +276,41 @@ def paramsStage (resume : Bool) : Stage := fun _ =>
     it: an empty file raises `FastaIndexingError` (`load`), anything else is read.
     The code before the repair (`refRewrite` off) unpacks `if not os.path.exists(copy) or not args.resume`: a resumed run
     works with whatever it finds under that name. -/
-def refStage (v : Variant) (cfg : Cfg) (resume : Bool) : Stage := fun fs =>
+def refCopyActs (v : Variant) (cfg : Cfg) (resume : Bool) (fs : FS) : List Act :=
   if !cfg.gzRef then []
   else
     (if !v.refRewrite && resume && fs.has .refFa then []
      else evs [.create .refFa, .commit .refFa .stale, .commit .refFa .good])
     ++ [Act.load .refFa]
 
+/-- the index is trusted as found (not a plain-gzip reference: the copy of one is rewritten by every run, its index is
+    older than the copy — `os.path.getmtime(fai) < os.path.getmtime(reference)` — and therefore rebuilt) -/
+def idxTrusted (cfg : Cfg) : Bool := cfg.idx && !cfg.gzRef
+
+/-- load_indexed_reference (src/dataset_processor.py, since eab0ef3), for an index inside the output folder (`cfg.idx`):
+    an index that exists and is not older than the FASTA is read as it is (`exist`: a text file; an empty or cut index is
+    read without complaint, the reference then has fewer sequences).  Otherwise pyfaidx reads the FASTA, opens
+    `<index>.<hex>.tmp`, writes and closes it; `os.replace(tmp, index)` is the three events `remove refFaiTmp`, `commit
+    refFaiData good`, `commit refFai good` (one atomic step in reality: the two states between them do not exist, the
+    crash states of the model are a superset).  Before the repair (`faiAtomic` off) pyfaidx opened the index itself
+    (`create refFai`: the file exists and is empty) and completed it at the close (`commit refFaiData good`). -/
+def refIndexActs (v : Variant) (cfg : Cfg) (fs : FS) : List Act :=
+  if !cfg.idx then []
+  else if idxTrusted cfg && fs.has .refFai then [Act.exist .refFai]
+  else
+    (if v.faiAtomic then
+       evs [.create .refFaiTmp, .commit .refFaiTmp .good, .remove .refFaiTmp, .commit .refFaiData .good, .commit .refFai .good]
+     else evs [.create .refFai, .commit .refFaiData .good])
+    ++ [Act.exist .refFai]
+
+def refStage (v : Variant) (cfg : Cfg) (resume : Bool) : Stage := fun fs =>
+  refCopyActs v cfg resume fs ++ refIndexActs v cfg fs      -- (the copy events do not touch the index)
+
 /-- the reference the per-chromosome work reads (chromosome list, sequences) is the right one: the user's file, or — with a
-    plain-gzip reference — a complete and correct unpacked copy.  (A copy that is not: the first pieces of a copy in
-    progress, or the copy of another reference; pyfaidx reads both without complaint, `Tok.stale`.) -/
-def refOK (cfg : Cfg) (fs : FS) : Bool := !cfg.gzRef || fs.good .refFa
+    plain-gzip reference — a complete and correct unpacked copy (a copy that is not: the first pieces of a copy in
+    progress, or the copy of another reference; pyfaidx reads both without complaint, `Tok.stale`); and, when the index
+    lies in the output folder, a complete and correct index -/
+def refOK (cfg : Cfg) (fs : FS) : Bool := (!cfg.gzRef || fs.good .refFa) && (!cfg.idx || fs.good .refFaiData)
 
 /-- DatasetProcessor.process_sample: read-group table split (read_groups.split_read_group_table) + its lock -/
 def rgStage (cfg : Cfg) (resume : Bool) : Stage := fun fs =>
@@ -534,9 +566,22 @@ def verdictFromOpts (v : Variant) (cfg : Cfg) (ord ord' : List Path) (hm kt : Bo
   else if sameFinals cfg r.fs (run v cfg ord false fs0).fs then .equal
   else .diff
 
+/-- two interruptions: the run on `fs0` is killed after `k1` events, the resumed run (directory order `ord2`) after `k2` of
+    *its* events — a resumed run that is killed is again a run killed after its parameters were saved —, then `--resume`
+    (directory order `ord3`) runs to its end; compared with the uninterrupted run on `fs0` -/
+def crashFSTwice (v : Variant) (cfg : Cfg) (ord ord2 : List Path) (fs0 : FS) (k1 k2 : Nat) : FS :=
+  let fs1 := crashFSFrom v cfg ord fs0 k1
+  applyAll fs1 ((run v cfg ord2 true fs1).evs.take k2)
+
+def verdictTwice (v : Variant) (cfg : Cfg) (ord ord2 ord3 : List Path) (fs0 : FS) (k1 k2 : Nat) : Verdict :=
+  let r := run v cfg ord3 true (crashFSTwice v cfg ord ord2 fs0 k1 k2)
+  if !r.ok then .fail
+  else if sameFinals cfg r.fs (run v cfg ord false fs0).fs then .equal
+  else .diff
+
 /-- the paths a run of configuration `cfg` can touch (used to print file systems) -/
 def allPaths (cfg : Cfg) : List Path :=
-  [.params, .refFa, .rgLock, .info, .lock]
+  [.params, .refFa, .refFai, .refFaiTmp, .rgLock, .info, .lock]
   ++ cfg.chrs.flatMap (fun c =>
       [.rgSplit c, .save c, .groups c, .bamstat c, .collected c, .multimap c, .processed c] ++ chrOutputs cfg c)
   ++ finalPaths cfg
